@@ -166,7 +166,7 @@ fn slot_first_pdu() {
     assert!(!unsafe { FrameElement::<0>::first_pdu_is(p, k) });
 }
 
-//@h name=slot_send_blocking props=C02,C03,C06,C04 fn=src/pdu_loop/frame_element/sendable_frame.rs::SendableFrame::send_blocking obligation="send_blocking hands the driver exactly 14+2+payload_len bytes of the slot; full write -> Sent, Ok(n); short write -> Sendable again, Err(PartialSend{len,sent}); driver error -> Sendable again, that error; buffer never modified"
+//@h name=slot_send_blocking props=C02,C03,C06,C04 fn=src/pdu_loop/frame_element/sendable_frame.rs::SendableFrame::send_blocking obligation="send_blocking hands the driver exactly 14+2+payload_len bytes of the slot; full write -> Sent, Ok(n); short write -> Sendable again, Err(PartialSend{len,sent}); driver error -> Sendable again, that error; buffer never modified; DURING the driver call the slot state is still Sending"
 #[cfg_attr(kani, kani::proof)]
 #[cfg_attr(all(test, verif_replay), test)]
 fn slot_send_blocking() {
@@ -180,8 +180,10 @@ fn slot_send_blocking() {
     let n: usize = vk::any();
     let mut seen_len = 0usize;
     let mut same = true;
+    let mut during = FrameState::None;
     let r = f.send_blocking(|bytes| {
         seen_len = bytes.len();
+        during = peek(&e);
         let mut i = 0;
         while i < DATA {
             if i < bytes.len() && bytes[i] != before.0[i] {
@@ -192,6 +194,7 @@ fn slot_send_blocking() {
         if outcome == 0 { Ok(n) } else { Err(Error::SendFrame) }
     });
     assert!(seen_len == expect_len && same);
+    assert!(during == FrameState::Sending, "while the driver is inside the buffer the slot still says Sending: nobody else can claim it");
     if outcome == 0 && n == expect_len {
         assert!(r == Ok(n) && peek(&e) == FrameState::Sent);
     } else if outcome == 0 {
